@@ -316,6 +316,7 @@ def run_item(item) -> Acc:
                 gens.append(("long-digit-string-20000", 'def f(mode):\n    if mode == "' + "9" * 20000 + 'x" or mode == "b":\n        return 1\n    return pick("' + "9" * 20000 + 'x")\n'))
                 gens.append(("huge-int-hex-5000", f"LIMIT = 10\n\n\ndef f():\n    return {big_hex}\n"))
                 gens.append(("huge-int-dec-5000", f"def f():\n    return {big_dec}\n"))
+                gens.append(("huge-int-in-conditions-5000", f"def g(items, config):\n    out = []\n    for it in items:\n        if it > {big_hex}:\n            continue\n        out.append(it)\n    if {big_hex} in config:\n        out.append(config[{big_hex}])\n    print({big_hex})\n    return out\n"))
                 gens.append(("lone-surrogate-escape-1", 'def f(mode):\n    if mode == "\\udc80" or mode == "plain":\n        return 1\n    return pick("\\udc80")\n'))
             elif lang == "ts":
                 gens.append(("open-jsdoc-blanks-20000", "/**" + " " * 20000 + "\nexport function f() {\n  return 1;\n}\n"))
